@@ -57,33 +57,43 @@ instance (as : List Int) (ndim : Nat) : Decidable (npTransposeOk as ndim) := by
 truncation: a zero product gives `int(nan)` (`ValueError`) for an empty array and `int(inf)`
 (`OverflowError`) otherwise; every `-1` is replaced by the same `extra`; then the size test, then the
 constructor (`SparseArray.__init__`) rejects negative extents.  (Exact for sizes below 2^53.) -/
+def reshapeFinish (size : Int) (s : List Int) : Except Err (List Nat) :=
+  if size ≠ iprod s then .error .value           -- "cannot reshape array of size … into shape …"
+  else if s.any (· < 0) then .error .value       -- `SparseArray.__init__`: "shape must be … non-negative"
+  else .ok (s.map Int.toNat)
+
 def reshapeShape (old : List Nat) (shape : List Int) : Except Err (List Nat) :=
   if old.map Int.ofNat = shape then .ok old else
   let size : Int := prod old
-  let filled : Except Err (List Int) :=
-    if shape.any (· == -1) then
-      let p := iprod (shape.filter (· != -1))
-      if p = 0 then (if size = 0 then .error .value else .error .overflow)
-      else .ok (shape.map fun d => if d == -1 then Int.tdiv size p else d)
-    else .ok shape
-  match filled with
-  | .error e => .error e
-  | .ok s =>
-    if size ≠ iprod s then .error .value
-    else if s.any (· < 0) then .error .value
-    else .ok (s.map Int.toNat)
+  if shape.any (· == -1) then
+    let p := iprod (shape.filter (· != -1))
+    if p = 0 then (if size = 0 then .error .value else .error .overflow)
+    else reshapeFinish size (shape.map fun d => if d == -1 then Int.tdiv size p else d)
+  else reshapeFinish size shape
 
-/-- NumPy's `reshape`: at most one `-1`, every other extent non-negative; with a `-1` the product of the
-others is non-zero and divides the size; without, the product equals the size. -/
+/-- NumPy's `reshape` (`_fix_unknown_dimension`): every NEGATIVE extent is an unknown one, at most one is allowed;
+with an unknown extent the product of the others is non-zero and divides the size; without, the product equals the size. -/
 def npReshapeOk (old : List Nat) (shape : List Int) : Prop :=
+  let size : Int := prod old
+  let rest := shape.filter (fun d => decide (0 ≤ d))
+  ((shape.filter (fun d => decide (d < 0))).length = 0 ∧ iprod shape = size ∨
+   (shape.filter (fun d => decide (d < 0))).length = 1 ∧ iprod rest ≠ 0 ∧ size % iprod rest = 0)
+
+instance (old : List Nat) (shape : List Int) : Decidable (npReshapeOk old shape) := by
+  unfold npReshapeOk; infer_instance
+
+/-- the same rule when `-1` is the only negative value in use (what `COO.reshape` implements) -/
+def npReshapeOk1 (old : List Nat) (shape : List Int) : Prop :=
   let size : Int := prod old
   let rest := shape.filter (· != -1)
   (∀ d ∈ rest, 0 ≤ d) ∧
   ((shape.filter (· == -1)).length = 0 ∧ iprod shape = size ∨
    (shape.filter (· == -1)).length = 1 ∧ iprod rest ≠ 0 ∧ size % iprod rest = 0)
 
-instance (old : List Nat) (shape : List Int) : Decidable (npReshapeOk old shape) := by
-  unfold npReshapeOk; infer_instance
+/-- the region where `COO.reshape` is stricter than NumPy: an extent below `-1` (NumPy reads it as "unknown") -/
+def ExcludedOtherNegative (shape : List Int) : Prop := ∃ d ∈ shape, d < -1
+instance (shape : List Int) : Decidable (ExcludedOtherNegative shape) := by
+  unfold ExcludedOtherNegative; infer_instance
 
 /-- the region where `COO.reshape` decides differently from NumPy: more than one `-1` (each is replaced
 by the same quotient and only the total size is tested) -/
@@ -113,14 +123,14 @@ def cooCtor (rows cols : Nat) (dataNdim n : Nat) (shape : Option (List Int)) : E
     let (rows, cols) := if sh ≠ [] ∧ rows * cols = 0 then (sh.length, 0) else (rows, cols)
     if sh.any (· < 0) then .error .value
     else if sh = [] then .ok []
-    else if n ≠ cols then .error .value
+    else if n ≠ cols then (if dataNdim = 0 then .error .type else .error .value)   -- the message calls `len(data)` on a 0-d `data`
     else if sh.length ≠ rows then .error .value
     else .ok (sh.map Int.toNat)
 
-/-- the documented contract of the constructor: one coordinate row per axis, one datum per column,
-non-negative extents -/
+/-- the documented contract of the constructor for 1-d `data` of length `n`: non-negative extents, one coordinate row per axis
+and one datum per column — or no coordinates at all (`coords.size == 0`, then no data) for a shape with at least one axis -/
 def ctorContract (rows cols : Nat) (n : Nat) (sh : List Int) : Prop :=
-  (∀ d ∈ sh, 0 ≤ d) ∧ (sh = [] ∨ (n = cols ∧ sh.length = rows))
+  (∀ d ∈ sh, 0 ≤ d) ∧ ((rows * cols = 0 ∧ sh ≠ [] ∧ n = 0) ∨ (n = cols ∧ sh.length = rows))
 
 instance (rows cols n : Nat) (sh : List Int) : Decidable (ctorContract rows cols n sh) := by
   unfold ctorContract; infer_instance
